@@ -11,6 +11,7 @@
  "thorough_defines": ["HP_MAXN=15"],
  "matrix": {"HP_MODEL": [1, 2]},
  "loop_contracts": false,
+ "cbmc": ["--unwindset", "heapify.0:5,heapifyup.0:5"],
  "unwind": 9, "thorough_unwind": 17,
  "bounded": true, "bound": "heaps with <= 7 elements (quick) / <= 15 (thorough); all loops fully unwound",
  "timeout": 600,
